@@ -9,8 +9,8 @@ setup attribute, and a DTLS fingerprint at session or media level."
 
 `SpecC06` (Proofs/JsepLemmas) is this sentence on an abstract description (`bundle` is stated as equality
 of lists, which is "exactly those mids, each once" given `unique`).  The theorems are about `Model.Jsep`,
-which mirrors the repaired code (fix commits f8dd603 data mid, 2069d04 mid on rejected sections, 02610b0
-numbering above every mid in use, a5a045e / f2c1d7e sections without direction / of unknown media type).
+which mirrors the repaired code (fix commits 62545c3 data mid, 1e29db3 mid on rejected sections, ce37316
+numbering above every mid in use, a3a3c09 / f46bced sections without direction / of unknown media type).
 "Parses as SDP" is pion/sdp's business and is checked on the real text by the harness.
 
 What the hypotheses mean:
@@ -46,7 +46,7 @@ theorem C06_reoffer (st : St) (d : Desc) (r : Desc) (h : (createOffer st).2 = .o
   reoffer_spec st d r h hsem hcur hrd hpb hr inv hw hg
 
 /-- A freshly added application section never takes a mid another section of the description uses
-    (DESIGN §7 row 4, fixed by f8dd603): for every list of sections. -/
+    (DESIGN §7 row 4, fixed by 62545c3): for every list of sections. -/
 theorem C06_data_mid_fresh (ms : List MSec) : dataMid ms ∉ ms.map MSec.id := dataMid_fresh ms
 
 /-- The numbering loop of CreateOffer gives every transceiver a mid and keeps all mids pairwise distinct. -/
